@@ -380,6 +380,8 @@ class Interp:
         self.store_map: dict[tuple, Any] = {}
         self._order = 0
         self.func_stack: list[str] = []
+        self.loop_cases = None  # callback(var, lo, hi, node) -> [(label, value)] | None
+        self.case_stack: list[tuple[str, str]] = []
         self.depth = 0
         self.builtins = self._make_builtins()
         self.np = self._make_numpy()
@@ -899,6 +901,22 @@ class Interp:
                 self.fail(st, "symbolic loop with step != 1")
             if not isinstance(st.target, ast.Name):
                 self.fail(st, "symbolic loop target must be a name")
+            if self.loop_cases is not None:
+                # rule-supplied case split of a symbolic loop (first / interior / last row ...)
+                cases = self.loop_cases(st.target.id, lo, hi, st)
+                if cases is not None:
+                    for label, value in cases:
+                        self.case_stack.append((st.target.id, label))
+                        env.set(st.target.id, value)
+                        try:
+                            self.exec_block(st.body, env)
+                        except _Continue:
+                            pass
+                        except _Break:
+                            self.fail(st, "break inside a case-split loop")
+                        finally:
+                            self.case_stack.pop()
+                    return
             sym = sp.Symbol(st.target.id, integer=True)
             lp = LoopInfo(
                 var=st.target.id, sym=sym, lo=lo, hi=hi, kind=kind, line=st.lineno, func=self.func_stack[-1] if self.func_stack else ""
